@@ -47,61 +47,58 @@ def check(repo, res, tier):
 
 
 def _check_loopdep(repo, res, cls):
+    """_addJumpsBetweenTime, interpreted on concrete event records: entry [k, i] of the result is the number of firings of transition i
+    whose event time lies in the k-th interval of the requested grid (so that consecutive gridded states differ by V times row k)"""
+    from ..core.absint import Abs as _Abs, Obj as _Obj
+    from ..core.numarr import NumArr, num_summaries
     f = repo.resolve_method(cls, "_addJumpsBetweenTime")
     if f is None:
         raise AnalysisError("_addJumpsBetweenTime vanished")
-    cfg, df = cfg_of(f), dataflow_of(f)
-    dX, t, target = f.params[1], f.params[2], f.params[3]
-    stores = []
-    for n in cfg.stmt_nodes():
-        st = n.ast
-        if n.kind == "stmt" and isinstance(st, ast.Assign) and isinstance(st.targets[0], ast.Subscript) and isinstance(st.targets[0].slice, ast.Tuple):
-            sl = st.targets[0].slice.elts
-            if len(sl) == 2 and isinstance(sl[0], ast.Slice) and isinstance(sl[1], ast.Name):
-                d = df.single_def(n, sl[1].id)
-                if d is not None and d.kind == "for":
-                    stores.append((n, sl[1].id, d))
-    if not stores:
-        res.violated("R-LOOPDEP", f, "column-store", "no `X_out[:, i] = ...` store inside a loop over the transitions")
-        return
-    res.floor("column-fill loops", len(stores), 1)
-    for n, ivar, idef in stores:
-        val = n.ast.value
-        defs = df.strong_defs(n, val.id) if isinstance(val, ast.Name) else []
-        vals = [(d.value, d) for d in defs] if defs else [(val, None)]
-        k = 0
-        for v, d in vals:
-            k += 1
-            at = d.node if d is not None else n
-            names = {x.id for x in ast.walk(v) if isinstance(x, ast.Name)}
-            dep = ivar in names or any(r[0] == "for" and r[1] == ivar for r in df.roots(v, at))
-            gs = [("%s" % norm(tn.ast.test), o) for tn, o in C.if_guards(cfg, at)]
-            tag = "column-depends-on-index#%d" % k
-            res.check(dep, "R-LOOPDEP", f, tag, "value stored in column %s depends on %s" % (ivar, ivar),
-                      "under %s the value stored in X_out[:, %s] is `%s`, which does not depend on %s: every column receives the same "
-                      "numbers (total events per interval instead of per-transition counts)" % (gs or "all conditions", ivar, norm(v), ivar),
-                      node=d.stmt if d is not None else n.ast)
-            # when a histogram is used: times t[1:], bins = target grid, weights = counts[:, i]
-            if isinstance(v, ast.Call) and dotted(v.func) in ("np.histogram", "numpy.histogram") and dep:
-                a0 = v.args[0] if v.args else kwarg(v, "a")
-                bins = kwarg(v, "bins", 1)
-                w = kwarg(v, "weights")
-                t_ok = isinstance(a0, ast.Subscript) and norm(a0.value) == t and C.slice_parts(a0.slice) in (("1", None, None),)
-                b_ok = norm(bins) == target
-                w_ok = isinstance(w, ast.Subscript) and norm(w.value) == dX and isinstance(w.slice, ast.Tuple) and len(w.slice.elts) == 2 \
-                    and isinstance(w.slice.elts[0], ast.Slice) and norm(w.slice.elts[1]) == ivar
-                res.check(t_ok and b_ok and w_ok, "R-LOOPDEP", f, "histogram-args#%d" % k,
-                          "per-interval counts = histogram of the event times t[1:] on the grid, weighted by column %s of the counts" % ivar,
-                          "histogram(%s, bins=%s, weights=%s): expected (%s[1:], bins=%s, weights=%s[:, %s])" % (norm(a0), norm(bins), norm(w), t, target, dX, ivar),
-                          node=d.stmt if d is not None else n.ast)
-    # output has one row per interval and one column per transition
-    allocs = [d for d in df.defs if d.kind == "assign" and isinstance(d.value, ast.Call) and dotted(d.value.func) in ("np.zeros", "np.empty")]
-    ok = False
-    for d in allocs:
-        shp = d.value.args[0] if d.value.args else None
-        if isinstance(shp, ast.Tuple) and len(shp.elts) == 2 and norm(shp.elts[0]).replace(" ", "") == "len(%s)-1" % target:
-            ok = True
-    res.check(ok, "R-LOOPDEP", f, "shape", "output has len(grid)-1 rows", "output is not allocated with len(targetTime)-1 rows")
+    cases = []
+    # (label, per-step counts, times incl. the initial time, grid)
+    onehot = [[1, 0, 0], [0, 1, 0], [1, 0, 0], [0, 0, 1], [0, 1, 0], [1, 0, 0]]
+    times = [0.0, 0.3, 0.7, 1.1, 2.6, 2.9, 7.2]
+    cases.append(("exact, even grid", onehot, times, [0.0, 2.0, 4.0, 6.0, 8.0], True))
+    cases.append(("exact, uneven grid", onehot, times, [0.0, 0.5, 1.0, 3.0, 8.0, 20.0], True))
+    cases.append(("exact, grid past the last event", onehot, times, [0.0, 1.0, 5.0, 10.0, 50.0, 51.0], True))
+    cases.append(("exact, path longer than the grid", onehot, times, [0.0, 0.5, 2.8], True))
+    cases.append(("exact, two transitions only", [[1, 0], [1, 0], [0, 1]], [0.0, 0.2, 0.4, 1.7], [0.0, 0.25, 1.5, 2.0], True))
+    cases.append(("exact, one transition", [[1], [1], [1]], [0.0, 0.2, 0.4, 1.7], [0.0, 0.3, 3.0], True))
+    cases.append(("tau-leap counts, uneven grid", [[3, 0, 1], [2, 2, 0], [0, 5, 1], [1, 1, 1]], [0.0, 0.5, 1.0, 1.5, 2.0], [0.0, 0.75, 1.25, 4.0], False))
+    cases.append(("list inputs", onehot, times, [0.0, 0.5, 1.0, 3.0, 8.0], True))
+    bad, n = [], 0
+    for label, dX, t, grid, exact in cases:
+        as_list = label == "list inputs"
+        summ = dict(num_summaries())
+        me = _Obj("Model")
+        ab = _Abs({}, {}, summ, me, {}, budget=50000)
+        ab.module = f.module
+        args = dict(zip(f.params[1:], [[list(r) for r in dX] if as_list else NumArr([list(r) for r in dX]), list(t) if as_list else NumArr(list(t)),
+                                       list(grid) if as_list else NumArr(list(grid)), exact]))
+        try:
+            kind, out = ab.run_function(f.node, args)
+        except Undecided as e:
+            res.undecided("R-LOOPDEP", f, "interval-counts", "outside the modelled subset: %s" % e)
+            return
+        n += 1
+        nT = len(dX[0])
+        want = [[0] * nT for _ in range(len(grid) - 1)]
+        for s_, row in enumerate(dX):
+            te = t[s_ + 1]
+            for k in range(len(grid) - 1):
+                last = k == len(grid) - 2
+                if grid[k] <= te < grid[k + 1] or (last and te == grid[k + 1]):
+                    for i_ in range(nT):
+                        want[k][i_] += row[i_]
+        got = out.tolist() if isinstance(out, NumArr) else out
+        if kind != "return":
+            bad.append("%s: raises %s" % (label, out))
+        elif not (isinstance(got, list) and len(got) == len(want) and all(isinstance(r, list) and len(r) == nT and all(abs(a - b) < 1e-9 for a, b in zip(r, w_)) for r, w_ in zip(got, want))):
+            bad.append("%s: for event times %s with per-step counts %s on the grid %s the per-interval counts are %s, expected %s (one row per interval, one column per transition)"
+                       % (label, t[1:], dX, grid, got, want))
+    res.check(not bad, "R-LOOPDEP", f, "interval-counts", "per-interval counts are per-transition counts of the events inside each interval of the requested grid (%d event records, "
+              "even / uneven grids, grids longer and shorter than the path, exact and tau-leap counts)" % n, "; ".join(bad[:2]), node=f.node)
+    res.floor("interval-count cases interpreted", n, 8)
 
 
 # numpy semantics on plain lists ------------------------------------------------
